@@ -45,8 +45,57 @@ End Spec.
 Arguments chunks_pods {A B}. Arguments chunks_ctrs {A B}. Arguments chunks_flags {A B}.
 Arguments sync_good {A B U PS}.
 
+(* ---------- the receiver: a split request as the stub sees it ---------- *)
+Section ReceiverSpec.
+  Variables A B U : Type.
+  (* the messages flagged More, carrying the given groups *)
+  Definition more_msgs (groups : list (list A * list B)) : list (chunk A B) :=
+    map (fun g => (fst g, snd g, true)) groups.
+  (* the stub's answer to a message flagged More *)
+  Definition more_reply : option (reply U) := Some {| r_more := true; r_update := [] |}.
+  (* the stub's answer to the last message: whatever the handler says about the whole state *)
+  Definition final_reply (h : list A -> list B -> option (list U)) (ps : list A) (cs : list B) : option (reply U) :=
+    match h ps cs with
+    | Some u => Some {| r_more := false; r_update := u |}
+    | None => None
+    end.
+End ReceiverSpec.
+Arguments more_msgs {A B}. Arguments more_reply {U}. Arguments final_reply {A B U}.
+
 (* l = pre ++ m ++ post : m is a group of consecutive elements of l *)
 Definition infix {X} (m l : list X) : Prop := exists pre post, l = pre ++ m ++ post.
+
+(* ---------- hypotheses about the environment of the sender ---------- *)
+(* an oversized-message error reports a rejected length above a positive maximum *)
+Definition honest {A B} (xmit : list A -> list B -> bool -> xres) : Prop :=
+  forall mp mc more mx ml, xmit mp mc more = XOversize mx ml -> 0 < mx < ml.
+
+(* the only transport error is the oversized-message error (time-outs are outside the model) *)
+Definition only_oversize {A B} (xmit : list A -> list B -> bool -> xres) : Prop :=
+  forall mp mc more, xmit mp mc more <> XOther.
+
+(* the plugin end handles split requests (answers More with More and no updates) and does not fail *)
+Definition handles_split {A B U PS} (peer : PS -> list A -> list B -> bool -> PS * option (reply U)) : Prop :=
+  forall st mp mc,
+    (exists st', peer st mp mc true = (st', Some {| r_more := true; r_update := [] |})) /\
+    (exists st' rp, peer st mp mc false = (st', Some rp)).
+
+(* interpretation I4 (DESIGN 2.4): every group of at most M objects - consecutive pods and
+   consecutive containers of the state - fits into one message, flagged More or not *)
+Definition every_min_chunk_fits {A B} (xmit : list A -> list B -> bool -> xres) (M : Z)
+    (pods : list A) (ctrs : list B) : Prop :=
+  forall mp mc more, infix mp pods -> infix mc ctrs -> len mp + len mc <= M -> xmit mp mc more = XOk.
+
+(* what the generic theorems ask of a recalculation function, for counts up to K *)
+Definition rc_decreases (rc : Z -> Z -> Z -> Z -> option (Z * Z)) (K : Z) : Prop :=
+  forall pp cp mx ml pp' cp',
+    0 <= pp <= K -> 0 <= cp <= K -> 0 < mx < ml -> rc pp cp mx ml = Some (pp', cp') ->
+    0 <= pp' /\ 0 <= cp' /\ pp' + cp' < pp + cp.
+Definition rc_keeps_nonzero (rc : Z -> Z -> Z -> Z -> option (Z * Z)) : Prop :=
+  forall pp cp mx ml pp' cp',
+    0 <= pp -> 0 <= cp -> rc pp cp mx ml = Some (pp', cp') -> (pp' = 0 -> pp = 0) /\ (cp' = 0 -> cp = 0).
+Definition rc_gives_up_at_min (rc : Z -> Z -> Z -> Z -> option (Z * Z)) (M : Z) : Prop :=
+  forall pp cp mx ml, 0 < mx < ml -> rc pp cp mx ml = None -> pp + cp <= M.
 
 (* ---------- interpretation I4 for the size-based transport, as a boolean ---------- *)
 (* heaviest window of at most a consecutive weights *)
